@@ -4,6 +4,7 @@ from vf.core import Clause, Outcome, Violation, require
 from vf.estimators import RecordingRegressor, RecordingClassifier
 
 import numpy as np
+import pandas
 from hypothesis import strategies as st
 from sklearn.dummy import DummyRegressor
 from sklearn.linear_model import LinearRegression, LogisticRegression
@@ -15,7 +16,8 @@ RULE = ("Hypothesis draws dyadic data (n 4..40, d 1..3), a binner in {DecisionTr
         "KBinsDiscretizer(n_bins 2..4, uniform|quantile|kmeans, default one-hot output)}, a local estimator in {recording model, "
         "LinearRegression, DummyRegressor | LogisticRegression, small tree}, optional positive weights, n_jobs in {None,1,2,4}, integer "
         "class labels (negative / non-contiguous, 2..4 classes, buckets missing a class occur), and a query batch that contains "
-        "training rows, far rows and rows in discretizer cells unseen at training time. Oracles: (partition) bucket ids vs the fitted "
+        "training rows, far rows and rows in discretizer cells unseen at training time; the training table is an array or a DataFrame, the query an array "
+        "(float64, float32, int64) or a DataFrame. Oracles: (partition) bucket ids vs the fitted "
         "binner's public apply()/transform(); (training-sets) recording local models saw exactly their bucket's (x,y,w) multiset, "
         "plus exactly one borrowed training row per missing class for the classifier, fallback saw everything; (dispatch) every output "
         "row equals its bucket model's (or the fallback's) own output on that row; (n_jobs) outputs equal those of n_jobs=None; "
@@ -81,6 +83,10 @@ def _build(case):
         y = X @ np.array(case["beta"][:X.shape[1]]) + np.array(case["ynoise"][:n])
     w = None if case["w"] is None else np.array(case["w"][:n], dtype=np.float64)
     Q = np.vstack([np.array(case["Q"], dtype=np.float64).reshape(-1, X.shape[1]), X[:: max(1, n // 5)]])
+    qk = case.get("qkind", "float64")
+    if qk in ("float32", "int64"):
+        # a query batch that is not float64 (integer features, a float32 pipeline): same statement, the bucket model answers for its rows
+        Q = (np.round(Q) if qk == "int64" else Q).astype(qk)
     return X, y, w, Q
 
 
@@ -114,7 +120,12 @@ def check(case):
     np.random.seed(case["seed"])
     m = _new_model(case, case["n_jobs"])
     X0, y0, w0 = X.copy(), y.copy(), None if w is None else w.copy()
-    r = m.fit(X, y, sample_weight=w)
+    # training and query tables may come as DataFrames (fit and predict take their .values)
+    cols = ["c%d" % j for j in range(d)]
+    Xin = pandas.DataFrame(X, columns=cols) if case.get("xkind") == "frame" else X
+    Qin = pandas.DataFrame(Q, columns=cols) if case.get("qkind") == "frame" else Q
+    facts.update(xkind=case.get("xkind", "array"), qkind=case.get("qkind", "float64"))
+    r = m.fit(Xin, y, sample_weight=w)
     require(r is m, "fit:not-self", "", facts)
     require(np.array_equal(X, X0) and np.array_equal(y, y0) and (w is None or np.array_equal(w, w0)), "input-modified", "", facts)
 
@@ -132,7 +143,7 @@ def check(case):
     require(m.n_estimators_ == nb and len(m.estimators_) == nb, "n_estimators", "%d local models for %d non-empty training buckets" % (len(m.estimators_), nb), facts)
     require(sorted(b2id.values()) == list(range(nb)), "partition:ids-not-0..k-1", "%r" % sorted(b2id.values()), facts)
     ref_q = _ref_buckets(m.binner_, Q)
-    ids_q = np.asarray(m.transform_bins(Q)).astype(int)
+    ids_q = np.asarray(m.transform_bins(Qin)).astype(int)
     for b, i in zip(ref_q, ids_q.tolist()):
         require(i == b2id.get(b, -1), "transform_bins:query-row", "reference bucket %r (training id %r) mapped to %r" % (b, b2id.get(b, -1), i), facts)
     unseen = bool(np.any(ids_q == -1))
@@ -175,7 +186,7 @@ def check(case):
 
     # ---- dispatch
     for meth in _methods(case, m):
-        out = np.asarray(getattr(m, meth)(Q))
+        out = np.asarray(getattr(m, meth)(Qin))
         require(len(out) == len(Q), "dispatch:length:" + meth, "", facts)
         # exact on the bucket's sub-batch (same estimator, same rows, same arithmetic) ...
         for bid in sorted(set(ids_q.tolist())):
@@ -209,15 +220,16 @@ def check(case):
     if case["n_jobs"] not in (None, 1):
         np.random.seed(case["seed"])
         m1 = _new_model(case, None)
-        m1.fit(X, y, sample_weight=w)
+        m1.fit(Xin, y, sample_weight=w)
         for meth in _methods(case, m):
-            a, b = np.asarray(getattr(m, meth)(Q)), np.asarray(getattr(m1, meth)(Q))
+            a, b = np.asarray(getattr(m, meth)(Qin)), np.asarray(getattr(m1, meth)(Qin))
             require(a.shape == b.shape and np.array_equal(a, b), "n_jobs:" + meth,
                     "n_jobs=%r and n_jobs=None disagree%s" % (case["n_jobs"], " (a bucket misses a class)" if missing_class else ""),
                     dict(facts, missing_class=missing_class))
     labels = ["clf" if classifier else "reg", "binner=" + case["binner"]["kind"], "est=" + case["estimator"]["kind"],
               "buckets=1" if nb == 1 else ("buckets<=4" if nb <= 4 else "buckets>4"), "unseen-bucket" if unseen else "all-seen",
-              "weights" if w is not None else "no-weights", "n_jobs=%s" % case["n_jobs"], "missing-class" if missing_class else "no-missing-class"]
+              "weights" if w is not None else "no-weights", "n_jobs=%s" % case["n_jobs"], "missing-class" if missing_class else "no-missing-class",
+              "train:" + facts["xkind"], "query:" + facts["qkind"]]
     return Outcome(labels, nb >= 2 and (unseen or missing_class or w is not None or case["n_jobs"] not in (None, 1)))
 
 
@@ -252,7 +264,8 @@ def _cases(draw, tier="quick"):
                 ynoise=[draw(st.integers(-16, 16)) / 8.0 for _ in range(50)],
                 w=draw(st.one_of(st.none(), st.lists(st.integers(1, 16).map(lambda v: v / 4.0), min_size=50, max_size=50))),
                 binner=binner, estimator=est, n_jobs=draw(st.sampled_from([None, 1, 2, 2, 4])), random_state=draw(st.one_of(st.none(), st.integers(0, 99))),
-                seed=draw(st.integers(0, 2**31 - 2)), Q=Q)
+                seed=draw(st.integers(0, 2**31 - 2)), Q=Q, xkind=draw(st.sampled_from(["array", "array", "frame"])),
+                qkind=draw(st.sampled_from(["float64", "float64", "float32", "int64", "frame"])))
 
 
 CLAUSES = [
